@@ -1,7 +1,8 @@
 #!/bin/bash
+REPO=${REPO:-/repo}; export PZ_REPO=$REPO   # the batteries may be pointed at a scratch clone (REPO=/tmp/x PZ_CACHE=/tmp/y); the registered checks always use /repo
 # Applies every kept seeded change to /repo (must be clean), runs the check of the property it breaks, reverts.
 # Output: one line per seed: <id> <property> detected|MISSED|patch-does-not-apply  [rules]
-if [ -n "$(git -C /repo status --porcelain)" ]; then echo "REPO DIRTY - refusing"; exit 3; fi
+if [ -n "$(git -C $REPO status --porcelain)" ]; then echo "REPO DIRTY - refusing"; exit 3; fi
 cd /verif
 for d in seeded/*/; do
   id=$(basename $d)
@@ -9,8 +10,8 @@ for d in seeded/*/; do
   prop=$(python3 -c "import json;print(json.load(open('$d/meta.json'))['property'])" 2>/dev/null || echo ${id%%-*})
   st=$(python3 -c "import json;print(json.load(open('$d/meta.json')).get('status',''))" 2>/dev/null)
   if [ "$st" = "neutralised" ]; then echo "$id $prop neutralised-by-fix (skipped)"; continue; fi
-  if ! git -C /repo apply --check $PWD/$d/patch.diff 2>/dev/null; then echo "$id $prop patch-does-not-apply"; continue; fi
-  git -C /repo apply $PWD/$d/patch.diff
+  if ! git -C $REPO apply --check $PWD/$d/patch.diff 2>/dev/null; then echo "$id $prop patch-does-not-apply"; continue; fi
+  git -C $REPO apply $PWD/$d/patch.diff
   # a seed may name the checks that are expected to see it when they differ from its own property ("checks": ["C12"])
   checks=$(python3 -c "import json;print(' '.join(json.load(open('$d/meta.json')).get('checks',[])))" 2>/dev/null)
   out=""
@@ -19,6 +20,6 @@ $(./pzv check $c 2>&1)"; done
   rules=$(echo "$out" | grep "rule=" | sed 's/.*rule=\([A-Z0-9-]*\).*/\1/' | sort -u | tr '\n' ' ')
   ex=$(python3 -c "import json;print(json.load(open('$d/meta.json')).get('expected',''))" 2>/dev/null)
   if echo "$out" | grep -q "^VIOLATION"; then echo "$id $prop detected [$rules]"; elif [ "$ex" = "missed" ]; then echo "$id $prop missed (recorded as outside reach)"; else echo "$id $prop MISSED"; fi
-  git -C /repo checkout -- .
+  git -C $REPO checkout -- .
 done
 git -C /verif checkout -- evidence  # evidence written while a seeded change was applied must not be committed
